@@ -20,9 +20,12 @@ LEVEL_TEXT = ("Theorems in Coq (Properties/C15.v): in every state reachable from
               "O-14 was refuted on the code as it was (c15_get_within_index_old_refuted: CEILING past the last entry of index a returned the record of "
               "index b; also FLOOR before the first entry, HIGHER running off the DB returning a stale entry, FLOOR giving up when SeekGE finds nothing), "
               "confirmed on the real code through the harness and repaired in server/secondary_indexes.go (fixes/O-14-secondary-get-stays-in-index.diff); "
-              "the positive theorems are about the repaired code. Documented failures outside the hypotheses: index names with '/', secondary keys with "
-              "\\x01 or \\x00 (nothing validates them: c15_layout_*_refuted, c15_index_mirror_slash_in_name_refuted) and sequence puts whose generated key "
-              "already holds a record (c15_index_mirror_needs_fresh_sequence_keys_refuted; confirmed on the real code, known finding).")
+              "the positive theorems are about the repaired code. Index declarations the layout cannot represent (empty index name, '/' in the name, empty secondary key, a byte <= 0x01 in it, "
+              "indexes on an empty key) were accepted by the code as found: List returned primary keys that do not exist, the list iterator panicked in the leader, "
+              "entries of one index were read as entries of another, EQUAL missed an existing entry (c15_layout_*_refuted, c15_index_mirror_slash_in_name_refuted; all "
+              "confirmed on the real code). Repaired by O-45 (leader-side validation refuses them, fixes/O-45-index-declarations-validated.diff); the theorems' "
+              "alphabet is now exactly what the validation accepts, so they cover every input that can reach the log (c15_logged_histories_admissible). "
+              "A sequence put landing on a live record (orphaned index entries) was confirmed and repaired with C16.")
 LEVEL_NOTE = ("Partial: proof about a hand-written model, tied to the code by differential testing on every run. Trusted: Coq kernel, extraction "
               "(ExtrOcamlBasic), the Go harness and its canonicalisation. Modelled, not verified: Pebble as an ordered map with snapshot iterators under "
               "the oxia comparer (C11), protobuf, url.PathEscape and regexp (transcribed; compared on generated inputs). The reads are driven through "
@@ -37,13 +40,18 @@ LEVEL_NOTE = ("Partial: proof about a hand-written model, tied to the code by di
               "in one DB, judged by the per-index reference (spec verdicts) and compared with the model. Inputs the server accepts but the layout cannot represent "
               "(name with '/', empty name or secondary key, secondary key with \\x01/\\x00) are generated in 'wild' cases and compared with the model only; what they do on "
               "the code (List returning a primary key that does not exist, a panic of the list iterator on an empty secondary key or index name) is documented by the "
-              "_refuted lemmas and counted under c15:wild:*.")
+              "_refuted lemmas and counted under c15:wild:*. The leader15 leg drives a real rf=1 LeaderController with representable and "
+              "unrepresentable declarations (index:unrepresentable-declaration-accepted / index:representable-declaration-refused, accept/reject compared with "
+              "Db/Validate.v) and reads the logged declarations back.")
 TRUSTED = ["modelled not verified: Pebble v1.1.2 (ordered map, snapshot iterators, SeekGE/SeekLT/Next/Prev), protobuf/vtprotobuf, "
            "url.PathEscape/PathUnescape and the regexp secondaryIdxFormatRegex (transcribed and compared on generated inputs)"]
-ASSUMES = ["index names are non-empty without '/', secondary keys and query keys have every byte > 0x01 (secondary keys non-empty), primary keys are "
-           "non-empty byte strings (the server validates none of this; failures outside are documented by _refuted lemmas)",
-           "request keys are user keys or session keys and delete-ranges contain no index key (every range outside '__oxia/' and the shadow range of "
-           "session.delete() qualify: c15_user_range_admissible, c15_shadow_range_admissible)",
+ASSUMES = ["the history consists of what can reach the log: client requests accepted by the leader's validation (server/write_validation.go as repaired by O-45: "
+           "index name non-empty without '/', secondary key non-empty with every byte > 0x01, no indexes on a record with an empty key; "
+           "c15_validation_is_the_alphabet, c15_validated_request_admissible) and the session manager's own requests (c15_logged_histories_admissible); "
+           "data written before O-45 may hold declarations outside the alphabet, for which the _refuted lemmas document what happens",
+           "keys are byte strings (every element < 256: a typing fact of Go strings the model's byte type does not carry)",
+           "QUERY keys and bounds of Get/List/RangeScan have every byte > 0x01 (reads are not validated; a query key with a byte <= 0x01 equals no stored "
+           "secondary key, but FLOOR/CEILING/LOWER/HIGHER and range bounds with such bytes are positioned by the byte layout, not by the key order)",
            "(discharged, not assumed: a sequence put generates a key that holds nothing - C16's generate_key_fresh on the repaired db_sequences.go, "
            "c15_admissible_histories_suffice)"]
 RULE = ("one case = 12-36 write requests against a fresh real DB on 1-4 indexes of one name family (40%: a, a-, a0, b; 60%: a family of printf-verb / url-escape / "
@@ -57,6 +65,8 @@ RULE = ("one case = 12-36 write requests against a fresh real DB on 1-4 indexes 
 LEGS = [
     {"name": "db15", "harness": "db", "model": "db", "n_quick": 700, "n_thorough": 40000, "args": ["-mode", "c15"],
      "corpus": "corpus/db15", "timeout": 900, "timeout_thorough": 3000},
+    {"name": "leader15", "harness": "db", "model": "db", "n_quick": 60, "n_thorough": 3000, "args": ["-mode", "c15leader"],
+     "timeout": 900, "timeout_thorough": 3000},
 ]
 REGISTERED = True
 
